@@ -23,8 +23,8 @@ RULE = (
     "(references already dangling in the input excepted).  Non-trivial = distinct (deck, fault list)."
 )
 ASSUMPTIONS = [
-    "which exception zipfile raises at which truncation point is runtime: only the class (BadZipFile for a stream, "
-    "PackageNotFoundError for a path) is predicted",
+    "which message zipfile gives at which truncation point is runtime: the class (BadZipFile for a stream, "
+    "PackageNotFoundError for a path) is what the statement fixes and what is judged",
     "XML payloads of registered part classes are re-serialised on save: compared by the C01 corpus oracle, not here",
 ]
 TRUSTED = ["fault injectors in harness/props/c16.py"]
@@ -331,9 +331,9 @@ def correspond(ctx):
                 ok = "PackageNotFoundError"
             except Exception as e:  # noqa
                 ok = type(e).__name__
-            want = {"stream": ("BadZipFile",), "path": ("PackageNotFoundError", "BadZipFile")}[form]
-            # a truncated file may still start with a valid local header: zipfile.is_zipfile(path) decides; both
-            # specific classes are acceptable for a path, only BadZipFile for a stream
+            # the statement: PackageNotFoundError for a path, BadZipFile for a stream.  Every truncation removes the zip
+            # end-of-central-directory record, so a truncated file given by path is "not a package" like any other non-zip
+            want = {"stream": ("BadZipFile",), "path": ("PackageNotFoundError",)}[form]
             if ok not in want:
                 ctx.fail(f"refusal-class:{form}", f"{name} [{form}]: expected {want}, got {ok}", {"input": name, "form": form})
     # missing mandatory members / wrong main part
